@@ -1,5 +1,6 @@
 import MosnVerif.Lemmas.HealthFlags
 import MosnVerif.Lemmas.HealthCheck
+import MosnVerif.Lemmas.HealthLoop
 /-!
 # C16 — host health state is never lost, and thresholds are exact (property theorems only)
 
@@ -297,5 +298,47 @@ example : run 2 3 (St.init false) [.failure, .success, .failure, .timeout, .fail
 example : (1 : Nat) ≤ 2 ∧ (1 : Nat) ≤ 3 := by decide
 
 end Thresholds
+
+section CheckerLoop
+open MosnVerif.Model.HealthLoop MosnVerif.Model.HealthCheck
+
+/-- **loop_exact**: with the regenerated `checkID` bookkeeping of `sessionChecker.Start`, for EVERY sequence of
+environment events (check timers firing, `CheckHealth` returning, timeout timers firing, timed-out checks answering
+late at any moment, the loop goroutine being scheduled whenever) the handler calls are exactly those of the reference:
+every issued check is handled exactly once, as a success/failure if it answered before its timeout and as a timeout
+otherwise — late answers of earlier checks have no effect whatsoever. -/
+theorem loop_exact (evs : List Ev) :
+    (HealthLoop.run genPolicy (Loop.init genPolicy) evs).log = (refRun Ref.init evs).log := by
+  rw [genPolicy_new]; exact (sim_run _ _ evs sim_init).2.2.2.2.2.2.2
+
+/-- end to end: the callbacks of the active health checker, for every event sequence and all thresholds ≥ 1, are the
+run-length reference applied to the true outcomes of the issued checks. -/
+theorem checker_exact (u h : Nat) (hu : 1 ≤ u) (hh : 1 ≤ h) (flag0 : Bool) (evs : List Ev) :
+    HealthCheck.run u h (St.init flag0) (HealthLoop.run genPolicy (Loop.init genPolicy) evs).log.reverse =
+      spec u h flag0 [] (refRun Ref.init evs).log.reverse := by
+  rw [loop_exact, threshold_exact u h hu hh]
+
+/-- **the bookkeeping before the `fix:` commit drops a good answer**: check 1 times out, check 2 is issued, check 1
+answers late (expired, but the loop advances `checkID` for it), check 2 answers healthy — its answer is now taken for
+an expired one too, and check 2 ends as a timeout failure.  The reference handles check 2 as a success. -/
+theorem old_policy_drops_answer :
+    (HealthLoop.run oldPolicy (Loop.init oldPolicy) [.top, .issue, .timeout, .top, .issue, .late 1 true, .answer true, .timeout]).log
+      = [.timeout, .timeout] ∧
+    (refRun Ref.init [.top, .issue, .timeout, .top, .issue, .late 1 true, .answer true, .timeout]).log = [.success, .timeout] := by
+  decide
+
+/-- the same bookkeeping armed the next check's timer BEFORE advancing `checkID`: a timer firing before the loop goroutine
+reaches the top of its next iteration stamps the check with the old id and its answer is dropped. -/
+theorem old_policy_arm_race :
+    (HealthLoop.run oldPolicy (Loop.init oldPolicy) [.issue, .top, .answer true, .timeout]).log = [.timeout] ∧
+    (refRun Ref.init [.issue, .top, .answer true, .timeout]).log = [.success] := by
+  decide
+
+-- non-vacuity: under the current bookkeeping the two event sequences above are handled correctly
+example : (HealthLoop.run genPolicy (Loop.init genPolicy) [.top, .issue, .timeout, .top, .issue, .late 1 true, .answer true, .timeout]).log
+    = [.success, .timeout] := by decide
+example : (HealthLoop.run genPolicy (Loop.init genPolicy) [.issue, .top, .answer true, .timeout]).log = [.success] := by decide
+
+end CheckerLoop
 
 end MosnVerif.Props.C16
